@@ -53,7 +53,8 @@ Definition to_exp (x : sx) : experiment :=
   mkexp (to_str (nthx 0 x)) (to_Z (nthx 1 x)) (to_Z (nthx 2 x)) (to_opt to_input (nthx 3 x)) (to_opt to_noise (nthx 4 x))
     (to_opt to_Z (nthx 5 x)) (to_opt to_str (nthx 6 x)) (to_ports (nthx 7 x)) (to_ports (nthx 8 x))
     (to_listf (to_opt to_idet) (nthx 9 x))
-    (to_listf (fun it => (to_Z (nthx 0 it), to_comp 64 (nthx 1 it))) (nthx 10 x)).
+    (to_listf (fun it => (to_Z (nthx 0 it), to_comp 64 (nthx 1 it))) (nthx 10 x))
+    (to_listf (fun it => (to_Z (nthx 0 it), to_Z (nthx 1 it))) (nthx 11 x)).
 Definition to_matrix (x : sx) : matrix :=
   match to_Z (nthx 0 x) with
   | 0 => MNum (to_listf (to_listf to_qi) (nthx 1 x))
@@ -168,7 +169,8 @@ Definition of_dexp (d : dexp) : sx :=
   L [of_opt of_str (de_name d); I (de_moi d); I (de_nher d); of_opt of_input (de_input d); of_opt of_noise (de_noise d);
      of_opt I (de_filter d); of_opt of_str (de_post d); of_sparse of_aport (de_in d); of_sparse of_aport (de_out d);
      of_listf (of_opt of_idet) (de_dets d);
-     of_listf (fun oc => L [I (fst oc); of_dcomp (snd oc)]) (de_comps d)].
+     of_listf (fun oc => L [I (fst oc); of_dcomp (snd oc)]) (de_comps d);
+     of_listf (fun mk => L [I (fst mk); I (snd mk)]) (de_hnum d)].
 Fixpoint of_dvalue (v : dvalue) : sx :=
   match v with
   | DVCircuit d => L [I 0; of_dcomp d] | DVComponent d => L [I 1; of_dcomp d] | DVExperiment d => L [I 2; of_dexp d]
